@@ -518,7 +518,9 @@ func (g *Gen) Step() {
 			return
 		}
 		if ids := deliveredIDs(s, true); len(ids) > 0 {
-			w.AckUnderFault(s.Name, g.subset(ids, 0.6), 1+r.Intn(6))
+			// a third of the faults are the one error the call retries on by itself
+			// (PostgreSQL's deadlock report): the answer after the internal retry binds
+			w.AckUnderFault(s.Name, g.subset(ids, 0.6), 1+r.Intn(6), r.Intn(3) == 0)
 		}
 	case "ack-all":
 		if s == nil {
